@@ -43,6 +43,23 @@ var lexReps = []lexeme{
 
 var lexSeps = []string{"", " ", "\t", "\n", "\r\n", "# c\n", "// é\n", "  \t "}
 
+// long comments whose multi-byte characters sit around the 64 / 128 / 256 byte marks (used in the
+// long lists only; the exhaustive pairs keep the short separators)
+var lexLongSeps = func() []string {
+	var out []string
+	for _, n := range []int{60, 61, 62, 63, 64, 65, 125, 126, 127, 128, 253, 254, 255, 256} {
+		out = append(out, "# "+strings.Repeat("x", n-2)+"ééé tail\n", "//"+strings.Repeat("y", n-2)+"日本語\n")
+	}
+	return out
+}()
+
+func sepText(k int) string {
+	if k < len(lexSeps) {
+		return lexSeps[k]
+	}
+	return lexLongSeps[k-len(lexSeps)]
+}
+
 func (l lexeme) text() string {
 	var sb strings.Builder
 	for _, t := range l.Toks {
@@ -88,7 +105,7 @@ func lexInput(id string, lexs []int, seps []int) (src string, evs []map[string]i
 	}
 	var tokEvs []map[string]interface{}
 	for i, li := range lexs {
-		sep := lexSeps[seps[i]]
+		sep := sepText(seps[i])
 		l := lexReps[li]
 		if i > 0 {
 			prev := lexReps[lexs[i-1]]
@@ -122,7 +139,7 @@ func lexInput(id string, lexs []int, seps []int) (src string, evs []map[string]i
 			expected = append(expected, t)
 		}
 	}
-	last := lexSeps[seps[len(lexs)]]
+	last := sepText(seps[len(lexs)])
 	sb.WriteString(last)
 	sepEvents(last, &evs)
 	src = sb.String()
@@ -220,6 +237,25 @@ func checkC19(c *Ctx) {
 			seps[k] = r.Intn(len(lexSeps))
 		}
 		add(fmt.Sprintf("t%d", i), lexs, seps)
+	}
+	// large positions: several hundred lines, and one line several hundred columns wide
+	for v := 0; v < 3; v++ {
+		n := 700
+		lexs := make([]int, n)
+		seps := make([]int, n+1)
+		nl := 3 // index of "\n" in lexSeps
+		for k := range lexs {
+			lexs[k] = r.Intn(len(lexReps))
+			switch v {
+			case 0:
+				seps[k] = nl // one lexeme per line
+			case 1:
+				seps[k] = 1 // all on one line
+			default:
+				seps[k] = r.Intn(len(lexSeps) + len(lexLongSeps))
+			}
+		}
+		add(fmt.Sprintf("big%d", v), lexs, seps)
 	}
 	to := runTraceSpec(c, "LexTrace", "LexTrace.cfg", "lex.ndjson", evs)
 	nrej := 0
